@@ -44,6 +44,10 @@ func checkC17(c *Ctx) {
 	c.Rule("C17-R9", "cell content reaches the charset encoder one rune at a time through encodeRune, called by drawCell only with the runes GetContent returned (the failure test - empty output or a leading SUB - is a test of one rune's output)")
 	c.Rule("C17-R11", "always occupying the cell's width: whether a wide cell is padded after a narrow substitute is decided by what happened to its main rune, never by a flag the combining runes' encoder calls can overwrite")
 	c.Expect("C17-R11", 1)
+	c.Rule("C17-R12", "always occupying the cell's width: ACS glyph, fallback string and '?' are written only while nothing has been written for the cell (the main rune); an unrepresentable combining rune is elided whatever its Unicode category (= C18-R11)")
+	c.Expect("C17-R12", 2)
+	c.Rule("C17-R13", "the ACS glyph for every rune the description provides one for: the table is filled from the acsc string whatever the locale's character set (a charset that has the box-drawing runes may still lack diamond, pi, arrows: which rune needs the glyph is decided per cell)")
+	c.Expect("C17-R13", 1)
 	c.Expect("C17-R9", 3)
 	c.Rule("C17-R5", "the fallback map is consulted by direct lookup only and never copied after construction; it is seeded where it is made (before the application holds the screen) and afterwards changed one entry at a time by Register/Unregister only")
 	c.Rule("C17-R6", "RegisterEncoding and GetEncoding apply the same name normalisation under the registry lock; GetEncoding returns nil only when no fallback is configured")
@@ -60,6 +64,8 @@ func checkC17(c *Ctx) {
 		return
 	}
 	checkWidePaddingFromMainRune(c, p, "C17-R11")
+	checkFallbackOnlyForMainRune(c, p, "C17-R12")
+	checkAcsMapUnconditional(c, p, "C17-R13")
 	enc := p.Fn("tcell:(*tScreen).encodeRune")
 	can := p.Fn("tcell:(*tScreen).CanDisplay")
 	if enc == nil || can == nil {
